@@ -19,6 +19,7 @@ import (
 
 	"verif/harness/fw"
 	"verif/harness/oracle/bech32m"
+	"verif/harness/prop/bechscan"
 )
 
 const (
@@ -32,7 +33,7 @@ func init() {
 		DeadlockIsViolation: true,                       // the calls of this property are synchronous functions of their inputs: a call blocked for good inside the library is a violation
 		Builds:              []string{"default", "386"}, // the 386 build runs a quarter of the random classes on a 32-bit target
 		Parallel:            4,                          // cases are judged on 4 goroutines per shard: the library functions are stateless, shared state inside them shows up as wrong verdicts
-		Rule: "parse: model-built Bech32 strings carrying every version byte 0..255 x every payload length 0..50 (and no version byte at all) under known prefixes (iota, atoi, smr, rms), unknown ones and upper-case / mixed-case spellings, with zero and non-zero padding; near-valid strings for every prefix x kind with payload length exact, +-1 and the other kind's; mutations of valid address strings (substitution, insertion, deletion, truncation, case flip, whole string upper-cased); parse_unicode: the letters k/i/s replaced by U+212A/U+0130/U+017F/U+0131. " +
+		Rule: "parse: model-built Bech32 strings carrying every version byte 0..255 x every payload length 0..50 (and no version byte at all) under known prefixes (iota, atoi, smr, rms), unknown ones and upper-case / mixed-case spellings, with zero and non-zero padding; near-valid strings for every prefix x kind with payload length exact, +-1 and the other kind's, and the same strings with the checksum of another polymod constant (Bech32m and other plausible ones); mutations of valid address strings (substitution, insertion, deletion, truncation, case flip, whole string upper-cased); parse_unicode: the letters k/i/s replaced by U+212A/U+0130/U+017F/U+0131. " +
 			"ParseBech32 is judged two-sidedly: accept iff model-valid Bech32 whose data regroups into bytes, hrp in the prefix table, payload >= 1 byte and (version, length) in {(0x00,32), (0x08,20), (0x10,20)}; on accept prefix/version/bytes are compared and Bech32(prefix, addr) must be the lower-cased input. " +
 			"roundtrip: every prefix x kind x random/structured hash, string built by the model; fromkey: the three constructors against BLAKE2b. " +
 			"migrate: Encode against the own encoder and Decode(Encode(a)) == a on random and structured addresses (0x00, 0xff, 0x7f/0x80/0x81 runs); migsubst: all 81 x 26 single-tryte substitutions of sampled encodings; migparse: wrong lengths 0..90, lower case, non-tryte characters, wrong prefix/suffix, invalid and non-canonical (value +-256) b1t6 groups in address and checksum part, wrong checksums; Decode judged two-sidedly against the model decoder and accepted strings must re-encode to themselves. " +
@@ -744,6 +745,24 @@ func gen(g *fw.Gen) {
 		payload := append([]byte{ver}, randHash(r, l)...)
 		s := encodeAddr(hrp, payload)
 		spellings(g, s)
+		if n%16 == 1 {
+			// the same address string with another checksum polymod: the Bech32m constant and other plausible
+			// confusions (the string differs from the valid one in its six checksum characters only)
+			ds := bechscan.Targeted()
+			d := ds[0]
+			if r.Intn(2) == 0 {
+				d = ds[r.Intn(len(ds))]
+			}
+			one := []uint32{d}
+			bechscan.Scan(s, func() uint32 {
+				if len(one) == 0 {
+					return 0
+				}
+				v := one[0]
+				one = nil
+				return v
+			}, func(t string) bool { emitS(g, "parse", t); return false })
+		}
 		if n%8 == 0 { // the same address with non-zero padding bits or one symbol more
 			syms, _ := bech32m.ConvertBits(payload, 8, 5, true)
 			if pad := uint(len(syms)*5 - len(payload)*8); pad > 0 && r.Intn(4) > 0 {
